@@ -175,6 +175,47 @@ func ruleC12f(c *Ctx) []*report.Result {
 		}
 		return before
 	}
+	// implies: the boolean v being true implies that flag g is set. v is the
+	// flag itself, or the value of `g && …` kept in a local: a phi whose every
+	// edge is the constant false, or a value that implies g, or comes from a
+	// block entered only through the true edge of a test that implies g.
+	var implies func(v ssa.Value, g string, depth int) bool
+	implies = func(v ssa.Value, g string, depth int) bool {
+		if depth > 4 {
+			return false
+		}
+		if loadOf(v, g) {
+			return true
+		}
+		ph, ok := v.(*ssa.Phi)
+		if !ok {
+			return false
+		}
+		for i, e := range ph.Edges {
+			if k, isC := e.(*ssa.Const); isC && k.Value != nil && k.Value.String() == "false" {
+				continue
+			}
+			if implies(e, g, depth+1) {
+				continue
+			}
+			pred := ph.Block().Preds[i]
+			okEdge := false
+			for _, gb := range ph.Block().Parent().Blocks {
+				iff, isIf := gb.Instrs[len(gb.Instrs)-1].(*ssa.If)
+				if !isIf || !implies(iff.Cond, g, depth+1) {
+					continue
+				}
+				t := gb.Succs[0]
+				if len(t.Preds) == 1 && (t == pred || t.Dominates(pred)) {
+					okEdge = true
+				}
+			}
+			if !okEdge {
+				return false
+			}
+		}
+		return true
+	}
 	// flagOnEdge: the flags known true when leaving b by successor si
 	flagOnEdge := func(b *ssa.BasicBlock, si int) []string {
 		iff, ok := b.Instrs[len(b.Instrs)-1].(*ssa.If)
@@ -192,7 +233,7 @@ func ruleC12f(c *Ctx) []*report.Result {
 		}
 		var out []string
 		for _, g := range []string{"widPresent", "precPresent"} {
-			if loadOf(cond, g) {
+			if implies(cond, g, 0) {
 				out = append(out, g)
 			}
 		}
